@@ -172,7 +172,7 @@ HeadersBase::KV* HeadersBase::kv_add(KV kv) {
 
 int HeadersBase::parse() {
     Parser p({m_buf, m_buf_size});
-    while(p[0] != '\r') {
+    while(!p.is_done() && p[0] != '\r') {
         auto k = p.extract_until_char(':');
         p.skip_chars(' ', true);
         auto v = p.extract_until_char('\r');
